@@ -320,3 +320,130 @@ CHECKS = [
     Check("acceptance_composite", _unwrap(body_composite), lambda: {"c": composite_case()}, quick=1000, thorough=8000,
           quick_shards=4),
 ]
+
+
+# ------------------------------------------------------------------------------------------------ cell-bounding handler
+
+@st.composite
+def cell_bounding_case(draw):
+    per = [draw(st.integers(4, 6)) for _ in range(3)]
+    L = draw(st.sampled_from([1.0, 2.0]))
+    active_cell = [draw(st.integers(0, n - 1)) for n in per]
+    # a target cell that is not nearby: offset with at least one component >= 2 (torus distance)
+    off = [draw(st.integers(0, n - 1)) for n in per]
+    axis = draw(st.integers(0, 2))
+    off[axis] = draw(st.integers(2, per[axis] - 2))
+    return {"per_side": per, "L": L, "active_cell": active_cell, "offset": off,
+            "frac_a": [draw(gen.floats(0.05, 0.95)) for _ in range(3)],
+            "frac_t": [draw(gen.floats(0.05, 0.95)) for _ in range(3)],
+            "direction": draw(st.integers(0, 2)), "speed": draw(st.sampled_from([1.0, 0.5, 2.0])),
+            "charges": [draw(st.sampled_from([1.0, -1.0, 2.0])), draw(st.sampled_from([1.0, -1.0, 0.5]))],
+            "beta": draw(st.sampled_from([0.5, 1.0, 2.0])), "expo": draw(gen.log_uniform(1e-4, 3.0)),
+            "ts": [float(draw(st.integers(0, 20))), draw(gen.floats(0.0, 0.999))]}
+
+
+def body_cell_bounding(rec, **c):
+    import contextlib
+    import io
+    import jellyfysh.setting as setting
+    from jellyfysh.setting import hypercubic_setting
+    from jellyfysh.activator.internal_state.cell_occupancy.cells.cuboid_periodic_cells import CuboidPeriodicCells
+    from jellyfysh.base.node import Node
+    from jellyfysh.base.unit import Unit
+    from jellyfysh.base.time import Time
+    from jellyfysh.event_handler import two_leaf_unit_cell_bounding_potential_event_handler as mod_h
+    from jellyfysh.event_handler.abstracts import event_handler_with_bounding_potential as mod_a
+    from jellyfysh.potential.cell_bounding_potential import CellBoundingPotential
+    from jellyfysh.potential.inverse_power_potential import InversePowerPotential
+    from .. import stubs
+    from .C18 import bound_function
+    setting.reset()
+    hypercubic_setting.HypercubicSetting(beta=c["beta"], dimension=3, system_length=c["L"])
+    setting.set_number_of_root_nodes(2)
+    setting.set_number_of_nodes_per_root_node(1)
+    setting.set_number_of_node_levels(1)
+    per, L = c["per_side"], c["L"]
+    cells = CuboidPeriodicCells(cells_per_side=list(per), neighbor_layers=1)
+    pot = InversePowerPotential(power=1.0, prefactor=1.0)
+    Estimator = stubs.make_estimator_class()
+    # bounds 40x the generic function so that they dominate 1/r^2 for non-nearby cells of these grids
+    big = lambda lo, hi, d: tuple(40.0 * x for x in bound_function(lo, hi, d))
+    handler = mod_h.TwoLeafUnitCellBoundingPotentialEventHandler(
+        potential=pot, bounding_potential=CellBoundingPotential(estimator=Estimator(pot, big)), charge="q")
+    with contextlib.redirect_stdout(io.StringIO()):
+        handler.initialize(cells)
+    by_id = {cell.identifier: cell for cell in cells.yield_cells()}
+    acell = by_id[tuple(c["active_cell"])]
+    tcell = by_id[tuple((c["active_cell"][i] + c["offset"][i]) % per[i] for i in range(3))]
+    if tcell in cells.nearby_cells(acell):
+        rec.exclude("target cell is nearby")
+        return
+    apos = [acell.cell_min[i] + (acell.cell_max[i] - acell.cell_min[i]) * c["frac_a"][i] for i in range(3)]
+    tpos = [tcell.cell_min[i] + (tcell.cell_max[i] - tcell.cell_min[i]) * c["frac_t"][i] for i in range(3)]
+    d, speed = c["direction"], c["speed"]
+    v = [0.0, 0.0, 0.0]
+    v[d] = speed
+    qa, qt = c["charges"]
+    zero = cells.zero_cell
+    rel = by_id[tuple(c["offset"])]
+    lo = tuple(rel.cell_min[i] - zero.cell_max[i] for i in range(3))
+    hi = tuple(rel.cell_max[i] - zero.cell_min[i] for i in range(3))
+    up, low = big(lo, hi, d)
+    cp = qa * qt
+    rate = up * cp if cp > 0 else low * cp      # bounding event rate per unit speed
+
+    def attempt(u):
+        nodes = [Node(Unit((0,), list(apos), {"q": qa}, list(v), Time(*c["ts"])), weight=1),
+                 Node(Unit((1,), list(tpos), {"q": qt}, None, None), weight=1)]
+        s_h, s_a = Scripted(expos=[c["expo"]]), Scripted(uniforms=[u], strict=False)
+        old = (mod_h.random, mod_a.random)
+        mod_h.random, mod_a.random = s_h, s_a
+        try:
+            t = handler.send_event_time(nodes)
+            sep = setting.periodic_boundaries.separation_vector(nodes[0].value.position, nodes[1].value.position)
+            still_in_cell = not math.isnan(nodes[0].value.position[d]) and cells.position_to_cell(
+                list(nodes[0].value.position)) is acell
+            out = handler.send_out_state()
+        finally:
+            mod_h.random, mod_a.random = old
+        return t, list(sep), out, nodes, still_in_cell
+
+    t, sep, out, nodes, inside = attempt(0.5)
+    if rate <= 0.0:
+        if not math.isinf(t.quotient):
+            rec.fail("cell-bounding/rate-not-positive", "bounding rate %r <= 0 but a finite candidate %r" % (rate, t), c)
+        rec.case("cell-bounding/no-rate", (repr(sorted(c.items())),), False, None)
+        return
+    want = (c["expo"] / c["beta"]) / (rate * speed)
+    got = (t.quotient - c["ts"][0]) + (t.remainder - c["ts"][1])
+    if abs(got - want) > 1e-9 * want + 1e-12:
+        rec.fail("cell-bounding/candidate-time", "time displacement %r, expected e/(beta*B*c1c2*speed) = %r (B=%r)"
+                 % (got, want, up if cp > 0 else low), c)
+    if not inside:
+        if out is not None:
+            rec.fail("cell-bounding/left-cell", "the active unit left its cell before the candidate time but the "
+                     "handler returned an out-state", c)
+        rec.case("cell-bounding/left-cell", (repr(sorted(c.items())),), False, None)
+        return
+    q_true = -energies.inverse_power_grad(1.0, 1.0, cp, sep, d) * speed
+    thr = max(0.0, q_true) / (rate * speed)
+    if thr > 1.0:
+        rec.exclude("stub bound below the true rate (not a claim of the property)")
+        return
+    lo_u, hi_u = thr * (1 - 1e-9) - 1e-12, thr * (1 + 1e-9) + 1e-12
+    for u, expect in ((lo_u, True), (hi_u, False)):
+        if not 0.0 < u < 1.0:
+            continue
+        _, _, o, nd, _ = attempt(u)
+        handed = nd[1].value.velocity is not None
+        if handed != expect:
+            rec.fail("cell-bounding/threshold", "confirmation draw u=%r: velocity %s, but q_true/q_bound = %r"
+                     % (u, "handed over" if handed else "kept", thr), dict(c, u=u))
+        if not handed and (nd[0].value.velocity != v or nd[1].value.time_stamp is not None):
+            rec.fail("cell-bounding/unconfirmed-changes-state", "unconfirmed event changed the state", c)
+    rec.case("cell-bounding/%s" % ("interior" if 0 < thr < 1 else "edge"), (repr(sorted(c.items())),), 0 < thr < 1,
+             {"case": c, "threshold": thr, "rate": rate})
+
+
+CHECKS.append(Check("acceptance_cell_bounding", _unwrap(body_cell_bounding), lambda: {"c": cell_bounding_case()},
+                    quick=1000, thorough=8000, quick_shards=4))
